@@ -724,6 +724,7 @@ impl<'d> Exec<'d> {
                     self.world.borrow_mut().ev(Ev::Time { from, to: from + dt });
                 }
                 Step::SetNextPid(p) => session.verif_set_next_packet_id(p),
+                Step::Broker(BrokerAct::AfterNextConnack(v)) => self.world.borrow_mut().pipelined = v,
                 Step::Broker(_) | Step::Io { .. } => {}
                 other => self.skipped(other.kind(), session),
             }
@@ -828,6 +829,7 @@ impl<'d> Exec<'d> {
                         BrokerAct::Policy(p) => w.conns[cidx].broker = p,
                         BrokerAct::WakeDelay(us) => w.wake_delay_us = us,
                         BrokerAct::TimerLatency(us) => w.timer_latency_us = us,
+                        BrokerAct::AfterNextConnack(v) => w.pipelined = v,
                         BrokerAct::WriteGate { after, blocks } => {
                             let c = &mut w.conns[cidx];
                             let offset = c.out.bytes.len() + after;
